@@ -84,6 +84,25 @@ pub fn materialise(c: &Case) -> Mat {
             // unsorted names; plain characters only (they become VCF sample columns)
             out.push((format!("{}{i}", ["s", "b", "zz", "a", "M", "q", "c", "Y", "e", "k", "d", "x"][i % 12]), recs));
         }
+        // A quarter of the cases get a "hot site": at the centre of the first reference window the samples
+        // carry, in turn, each of the three other bases, and every fourth sample two different bases (an
+        // ambiguity code) - up to four different ALT alleles at one position. (A pure function of the case.)
+        let n = out.len();
+        if (c.k + 3 * n + c.contigs.len()) % 4 == 0 {
+            if let Some(w) = anc.iter().find_map(|r| model::windows(r, c.k).into_iter().next().map(|(_, w)| w)) {
+                let h = (c.k - 1) / 2;
+                let ri = model::BASES.iter().position(|b| *b == w[h].to_ascii_uppercase()).unwrap_or(0);
+                for (j, s) in out.iter_mut().enumerate() {
+                    let mut r = model::upper(&w);
+                    r[h] = model::BASES[(ri + 1 + j % 3) % 4];
+                    s.1.push(r.clone());
+                    if j % 4 == 3 {
+                        r[h] = model::BASES[(ri + 1 + (j + 1) % 3) % 4];
+                        s.1.push(r);
+                    }
+                }
+            }
+        }
     }
     Mat { reference: anc, samples: out }
 }
